@@ -1774,6 +1774,7 @@ func (c *HostClient) AcquireConn(reqTimeout time.Duration, connectionClose bool)
 		}
 	}
 	c.connsLock.Unlock()
+	verifPoint("hc.acquire.unlocked")
 
 	if cc != nil {
 		return cc, nil
@@ -1810,7 +1811,9 @@ func (c *HostClient) AcquireConn(reqTimeout time.Duration, connectionClose bool)
 			}
 		}()
 
+		verifPoint("hc.queue.before")
 		c.queueForIdle(w)
+		verifPoint("hc.queue.enqueued")
 
 		select {
 		case <-w.ready:
@@ -1849,6 +1852,7 @@ func (c *HostClient) queueForIdle(w *wantConn) {
 
 func (c *HostClient) dialConnFor(w *wantConn) {
 	conn, err := c.dialHostHard(0)
+	verifPoint("hc.dialfor.dialed")
 	if err != nil {
 		w.tryDeliver(nil, err)
 		c.decConnsCount()
@@ -1937,7 +1941,9 @@ func (c *HostClient) connsCleaner() {
 }
 
 func (c *HostClient) CloseConn(cc *clientConn) {
+	verifPoint("hc.close.enter")
 	c.decConnsCount()
+	verifPoint("hc.close.afterdec")
 	cc.c.Close()
 	releaseClientConn(cc)
 }
@@ -2004,6 +2010,7 @@ func releaseClientConn(cc *clientConn) {
 var clientConnPool sync.Pool
 
 func (c *HostClient) ReleaseConn(cc *clientConn) {
+	verifPoint("hc.release.enter")
 	cc.lastUseTime = time.Now()
 	if c.MaxConnWaitTimeout <= 0 {
 		c.connsLock.Lock()
@@ -2691,6 +2698,7 @@ func (c *pipelineConnClient) DoDeadline(req *Request, resp *Response, deadline t
 	req.copyToSkipBody(&w.reqCopy)
 	swapRequestBody(req, &w.reqCopy)
 
+	verifPoint("pc.do.beforeQueue")
 	// Put the request to outgoing queue
 	select {
 	case chs.chW <- w:
@@ -2803,6 +2811,7 @@ func (c *pipelineConnClient) Do(req *Request, resp *Response) error {
 		w.resp = &w.respCopy
 	}
 
+	verifPoint("pc.do.beforeQueue")
 	// Put the request to outgoing queue
 	select {
 	case chs.chW <- w:
@@ -3087,6 +3096,7 @@ func (c *pipelineConnClient) writer(conn net.Conn, stopCh <-chan struct{}, chs *
 			continue
 		}
 
+		verifPoint("pc.writer.beforeWrite")
 		w.resp.ParseNetConn(conn)
 
 		if writeTimeout > 0 {
@@ -3181,6 +3191,7 @@ func (c *pipelineConnClient) reader(conn net.Conn, stopCh <-chan struct{}, chs *
 				return err
 			}
 		}
+		verifPoint("pc.reader.beforeRead")
 		if err = w.resp.Read(br); err != nil {
 			w.err = err
 			w.done <- struct{}{}
@@ -3343,6 +3354,7 @@ func (t *transport) RoundTrip(hc *HostClient, req *Request, resp *Response) (ret
 		return false, nil
 	}
 	hc.ReleaseReader(br)
+	verifPoint("rt.beforeRelease")
 
 	if closeConn {
 		hc.CloseConn(cc)
